@@ -84,7 +84,15 @@ fn punct_chars(p: &Punctuation) -> &'static [char] {
 }
 
 fn parse_number_text(text: &[char]) -> Option<f64> {
-    let s: String = text.iter().collect();
+    // `_` between two digits is a digit separator in many notations; a number token whose text
+    // uses it still denotes the value of its digits
+    let mut s = String::new();
+    for (i, c) in text.iter().enumerate() {
+        if *c == '_' && i > 0 && i + 1 < text.len() && text[i - 1].is_ascii_hexdigit() && text[i + 1].is_ascii_hexdigit() {
+            continue;
+        }
+        s.push(*c);
+    }
     if s.len() > 2 && s.starts_with("0x") {
         return u64::from_str_radix(&s[2..], 16).ok().map(|v| v as f64);
     }
